@@ -78,6 +78,12 @@ def gen_scenarios(rng: Rng, world: dict) -> list[dict]:
             cls = rng.choice(["rename", "write", "create", "chmod", "fsync", "open_r"])
             errno = {"rename": "EACCES", "write": "ENOSPC", "create": "EACCES", "chmod": "EPERM", "fsync": "EIO", "open_r": "EIO"}[cls]
             sc["plan"] = [{"cls": cls, "path": "/" + v + ".", "nth": 0, "kind": "err", "errno": errno}]
+        broken = [f_ for f_ in files if world["meta"][f_]["kind"] in ("parse_err", "tmpl_undef")]
+        if broken and not sc["plan"] and rng.chance(0.2):
+            # every raw read of ONE unparsable file comes back short (legal for raw I/O): whoever takes a
+            # single read for the whole file sees a prefix that may well parse
+            v = os.path.basename(rng.choice(broken))
+            sc["plan"] = [{"cls": "open_r", "path": "/" + v, "repeat": True, "kind": "short_read", "bytes": rng.choice([30, 60, 120])}]
         # slow-worker fault for the parallel runs: one submission outlasts all others
         sc["straggler"] = rng.choice([None, None, 0, 1, 3]) if sc["processes"] > 1 else None
         out.append(sc)
